@@ -595,6 +595,13 @@ impl Repository {
                 .context(error::FileWriteSnafu { path: &tmp_path })?;
         }
 
+        // `write_all` only hands the data to a background write; the outcome of the last one is
+        // reported by `flush`. Without it a failed final write (e.g. a full disk) would go
+        // unnoticed and an incomplete file would be moved into place.
+        f.flush()
+            .await
+            .context(error::FileWriteSnafu { path: &tmp_path })?;
+
         // Reconstruct `NamedTempFile` in order to persist it at the target location.
         let f = NamedTempFile::from_parts(f.into_std().await, tmp_path);
         f.persist(&resolved_filepath)
